@@ -523,6 +523,10 @@ impl AstLowering {
                             let lowered = self.lower_expr(&e.node)?;
                             Ok(super::super::expr::FormatPart::Expr(lowered))
                         }
+                        ast::FStringPart::DebugExpr(e) => {
+                            let lowered = self.lower_expr(&e.node)?;
+                            Ok(super::super::expr::FormatPart::DebugExpr(lowered))
+                        }
                     })
                     .collect::<Result<Vec<_>, LoweringError>>()?;
                 (IrExprKind::Format { parts: ir_parts }, IrType::String)
